@@ -11,7 +11,7 @@
    span  :=  N x<name> <kind> <start|NOW> <duration|NOW> <status> x<desc> <ctx 0/1> | A {; oattr}* {| E x<name> <ts|NOW> {; oattr}*}*
              {| L link {; oattr}*}* | R {; oattr}* | S x<name> x<version> x<schema>
    oattr :=  as attr, without type c *)
-From V Require Export C04.Spec C04.SpecRace.
+From V Require Export C04.Spec C04.SpecRace C04.Lts.
 From Coq Require Import String.
 Local Open Scope Z_scope.
 
@@ -412,10 +412,11 @@ Definition run_spec_seq (l obs : list tok) : list tok :=
    case  :=  SRACE {S|Q}+ | ST x<name> <kind> <start_system> <start_steady> {; attr}* | T {| op}* | T {| op}* ... | s <tid> <flag>...
              (no implicit time stamps: start times and End times non-zero, events EVT / EVTA; event names pairwise distinct;
               1..4 threads; the controller ends the span with END 7777 after the threads have finished)
-   observation (runner TRACE_MODE):  OK || H {B|R <tid> <idx> <res>}* X <observation of the exporters as above>
-   [run_model] is an acceptor: it checks that the history is a history of this case (every call of every thread begins and
-   returns, in the order of the thread's operation list, then the controller's End) and answers OK; the SPEC (SpecRace.v) is
-   evaluated on the history and the exports. *)
+   observation (runner TRACE_MODE):  <observation of the exporters as above> || H {<K> <tid> <a> <b>}*
+       K = B / R: call <a> of the thread begins / returns (b: the answer of IsRecording);  L / U: the thread takes / releases
+       Span::mu_;  D: processor <a> is handed its child (inside End)
+   [run_model] replays the logged trace through the acceptor of the lock-granularity machine (Lts.v) and prints what that machine
+   says every processor was handed; the SPEC (SpecRace.v) is evaluated on the B / R history and the exports. *)
 Fixpoint cut_bars (l : list tok) : list tok * list tok :=
   match l with
   | [] => ([], [])
@@ -474,35 +475,39 @@ Definition parse_rcase (l : list tok) : option rcase :=
   | _ => None
   end.
 
-(* the threads plus the controller's End as one more thread *)
-Definition race_threads (c : rcase) : list (list (op aval)) := (rc_threads c ++ [[End final_end]])%list.
+(* the threads plus the controller as one more thread: its End, then the destructor's End() when it drops the span *)
+Definition race_threads (c : rcase) : list (list (op aval)) := (rc_threads c ++ [[End final_end; End 0]])%list.
 
-Fixpoint parse_hist (l : list tok) : option (list hev) :=
+(* one logged event: B / R (begin / return of a public call), L / U (Span::mu_ taken / released), D (a processor is handed its child) *)
+Inductive tev := TBeg (t i : nat) | TRet (t i : nat) (r : Z) | TLock (t : nat) | TUnlock (t : nat) | TDeliver (t p : nat).
+Fixpoint parse_tevs (l : list tok) : option (list tev) :=
   match l with
   | [] => Some []
-  | t :: TZ a :: TZ b :: TZ r :: rest =>
-      if is_tag "B" t then option_map (cons (mk_hev true (Z.to_nat a) (Z.to_nat b) r)) (parse_hist rest)
-      else if is_tag "R" t then option_map (cons (mk_hev false (Z.to_nat a) (Z.to_nat b) r)) (parse_hist rest)
-      else None
+  | k :: TZ a :: TZ b :: TZ r :: rest =>
+      let t := Z.to_nat a in
+      match (if is_tag "B" k then Some (TBeg t (Z.to_nat b))
+             else if is_tag "R" k then Some (TRet t (Z.to_nat b) r)
+             else if is_tag "L" k then Some (TLock t)
+             else if is_tag "U" k then Some (TUnlock t)
+             else if is_tag "D" k then Some (TDeliver t (Z.to_nat b))
+             else None), parse_tevs rest with
+      | Some e, Some r' => Some (e :: r')
+      | _, _ => None
+      end
   | _ => None
   end.
-Fixpoint cut_at (s : string) (l : list tok) : list tok * list tok :=
-  match l with
-  | [] => ([], [])
-  | t :: r => if is_tag s t then ([], r) else let '(a, b) := cut_at s r in (t :: a, b)
-  end.
-Definition parse_rtrace (tr : list tok) : option (list hev * list (list sdata)) :=
+Definition parse_rtrace (tr : list tok) : option (list tev) :=
   match tr with
-  | th :: r =>
-      if is_tag "H" th then
-        let '(hs, xs) := cut_at "X" r in
-        match parse_hist hs, parse_obs xs with
-        | Some h, Some (_, got) => Some (h, got)
-        | _, _ => None
-        end
-      else None
+  | th :: r => if is_tag "H" th then parse_tevs r else None
   | [] => None
   end.
+(* the call history the race SPEC looks at *)
+Definition hist_of (tr : list tev) : list hev :=
+  flat_map (fun e => match e with
+                     | TBeg t i => [mk_hev true t i 0]
+                     | TRet t i r => [mk_hev false t i r]
+                     | _ => []
+                     end) tr.
 
 (* the history of thread t, as the list of its events, must be B t 0, R t 0, B t 1, R t 1, ... for all its operations *)
 Fixpoint expected_events (t i n : nat) : list (bool * nat * nat) :=
@@ -521,16 +526,57 @@ Definition history_ok (c : rcase) (h : list hev) : bool :=
   thread_hist_ok (race_threads c) 0 h &&
   forallb (fun e => Nat.ltb (h_tid e) (List.length (race_threads c))) h &&
   (* the controller's End begins after everything else has returned *)
-  Nat.eqb (pb h (List.length (rc_threads c), O)) (List.length h - 2).
+  Nat.eqb (pb h (List.length (rc_threads c), O)) (List.length h - 4).
 
 Definition is_srace (l : list tok) : bool := match l with t :: _ => is_tag "SRACE" t | [] => false end.
 
+(* the trace as a trace of the lock-granularity machine (Lts.v): B carries the operation the thread's script has at that index *)
+Definition lev_of (ths : list (list (op oval))) (e : tev) : option (nat * lev) :=
+  match e with
+  | TBeg t i => option_map (fun o => (t, LBeg o)) (nth_error (nth t ths []) i)
+  | TRet t _ r => Some (t, LRet r)
+  | TLock t => Some (t, LLock)
+  | TUnlock t => Some (t, LUnlock)
+  | TDeliver t p => Some (t, LDeliver p)
+  end.
+(* [cur t]: how many calls thread t has begun; its B events are numbered 0, 1, 2, ... and an R event names the last one *)
+Definition tev_ok (cur : nat -> nat) (e : tev) : bool :=
+  match e with
+  | TBeg t i => Nat.eqb i (cur t)
+  | TRet t i _ => Nat.eqb (S i) (cur t)
+  | _ => true
+  end.
+Definition cur_step (cur : nat -> nat) (e : tev) : nat -> nat :=
+  match e with TBeg t i => upd cur t (S i) | _ => cur end.
+Fixpoint replay (ths : list (list (op oval))) (s : lstate) (cur : nat -> nat) (tr : list tev) (n : Z) : lstate + Z :=
+  match tr with
+  | [] => inl s
+  | e :: r => match (if tev_ok cur e then lev_of ths e else None) with
+              | Some te => match accept s te with
+                           | Some s' => replay ths s' (cur_step cur e) r (n + 1)
+                           | None => inr n
+                           end
+              | None => inr n
+              end
+  end.
+Definition race_lts_threads (c : rcase) : list (list (op oval)) := map (map (map_op conv)) (race_threads c).
+
+(* [run_model]: the acceptor of Lts.v replays the logged trace event by event and derives what every processor was handed *)
 Definition run_model (l : list tok) : list tok :=
   let '(c, tr) := cut_bars l in
   if is_srace c then
     match parse_rcase c with
     | Some rc => match parse_rtrace tr with
-                 | Some (h, _) => if history_ok rc h then [tag "OK"] else [tag "REJECT"; tag "history_is_not_a_history_of_this_case"]
+                 | Some evs =>
+                     if history_ok rc (hist_of evs) then
+                       match replay (race_lts_threads rc) (linit (map_cfg conv (rc_cfg rc)) (map_start conv (rc_start rc))) (fun _ => O) evs 0 with
+                       | inl s => match l_mu s with
+                                  | None => print_obs [] (l_got s)
+                                  | Some _ => [tag "REJECT"; tag "mu_held_at_the_end"]
+                                  end
+                       | inr n => [tag "REJECT"; tag "event"; TZ n; tag "is_not_a_step_of_the_lock_granularity_machine"]
+                       end
+                     else [tag "REJECT"; tag "history_is_not_a_history_of_this_case"]
                  | None => [tag "REJECT"; tag "trace_unparsable"]
                  end
     | None => bad_case
@@ -551,16 +597,11 @@ Definition run_spec (l obs : list tok) : list tok :=
   if is_srace c then
     match parse_rcase c with
     | Some rc =>
-        match obs with
-        | [t] => if is_tag "OK" t then
-                   match parse_rtrace tr with
-                   | Some (h, got) =>
-                       check (history_ok rc h) "srace:history_malformed" ++
-                       race_check (rc_cfg rc) (rc_start rc) (race_threads rc) h got
-                   | None => fail "obs:unparsable"
-                   end
-                 else fail "srace:run_did_not_finish"
-        | _ => fail "srace:run_did_not_finish"
+        match parse_rtrace tr, parse_obs obs with
+        | Some evs, Some (_, got) =>
+            check (history_ok rc (hist_of evs)) "srace:history_malformed" ++
+            race_check (rc_cfg rc) (rc_start rc) (race_threads rc) (hist_of evs) got
+        | _, _ => fail "srace:run_did_not_finish"
         end
     | None => bad_case
     end
